@@ -7,14 +7,23 @@ def build(ctx):
     ctx.builddir = B.fresh_dir("c20")
     d = ctx.builddir + "/asan"
     objs = B.build_lib("asan", d)
-    return {"h_c20": B.build_harness("asan", d, "h_c20", ["h_c20.c"], objs, wraps=["write"])}
+    exes = {"h_c20": B.build_harness("asan", d, "h_c20", ["h_c20.c"], objs, wraps=["write"])}
+    if ctx.tier == "thorough":
+        d2 = ctx.builddir + "/plain"
+        objs2 = B.build_lib("plain", d2)
+        exes["h_c20.plain"] = B.build_harness("plain", d2, "h_c20.plain", ["h_c20.c"], objs2, wraps=["write"])
+    return exes
 
 
 def run(ctx):
-    exe = build(ctx)["h_c20"]
+    exes = build(ctx)
+    exe = exes["h_c20"]
     th = ctx.tier == "thorough"
     ctx.fan(exe, "single", 48 if th else 12, chunk=1, timeout=600)
     ctx.fan(exe, "multi", 10000 if th else 400, timeout=120)
+    if th:
+        # a single write request above 2^31 bytes answered with a short write of exactly 2^31 (4.5 GiB of disk, ~4 GiB of memory)
+        ctx.fan(exes["h_c20.plain"], "bigwrite", 2, chunk=1, timeout=1200, max_workers=1, prefix="plain.")
     s = ctx.stats
     ctx.assumptions += ["write(2) outcomes are injected at link level (ld --wrap=write) for every write() call made by mtbl/writer.c; partial writes really write n bytes",
                         "a hard error is persistent only at the faulted call index (one-shot): a writer that silently retries and finishes is reported, as the statement forbids reporting success"]
